@@ -310,6 +310,51 @@ def behavioural(res, fact):
         if pv is not None and rv is not None:
             fact(pv == rv, "single_operand_mode_python_vs_rust", f"{opcode:02X}/{pre:02X}", {"python": pv, "rust": rv})
 
+    # (b2) opcodes with TWO internal-memory operands must NOT be in the single-addressable set of either core: under a
+    #      PRE byte with different first/second modes the first operand follows the first and the second the second mode.
+    two = []
+    for opcode, d in sorted(OPCODES.items()):
+        cls, opts = d if isinstance(d, tuple) else (d, Opts())
+        ops = opts.ops or []
+        if len(ops) == 2 and all(type(o).__name__ in ("IMem8", "IMem16", "IMem20") for o in ops) and cls.__name__ not in ("MVL", "MVLD", "EXL", "DADL", "DSBL", "ADCL", "SBCL"):
+            two.append(opcode)
+    tcases = []
+    for opcode in two:
+        dep = ("(n)", "(BP+n)", "(PX+n)", "(PY+n)")    # modes whose address depends on the operand byte
+        good = [p_ for p_ in sorted(O.PRE_BY_OPCODE) if O.PRE_BY_OPCODE[p_].latch.first.value in dep and
+                O.PRE_BY_OPCODE[p_].latch.second.value in dep and
+                O.PRE_BY_OPCODE[p_].latch.first.value != O.PRE_BY_OPCODE[p_].latch.second.value]
+        for pre in good[:3]:
+            mem = dict(base_mem)
+            for k, off in enumerate(cands(n).values()):
+                for j in range(3):
+                    mem[IMEM + ((off + j) & 0xFF)] = 0x40 + 8 * k + j
+            for k, off in enumerate(cands(m).values()):
+                for j in range(3):
+                    mem.setdefault(IMEM + ((off + j) & 0xFF), 0x90 + 8 * k + j)
+            tcases.append((opcode, pre, mk(bytes([pre, opcode, m, n, 0x00, 0x00]), dict(regs), mem, "?", opcode, pre)))
+    rr = rust.run("exec", [dict(c, id=i) for i, (_, _, c) in enumerate(tcases)])
+    for (opcode, pre, case), r in zip(tcases, rr):
+        res.monitor("single_addressable_behaviour")
+        latch = O.PRE_BY_OPCODE[pre].latch
+        if latch.first.value == latch.second.value:
+            continue
+        obs = pyexec.run_case(case)
+        t = {a - IMEM for a in obs.get("reads", []) if IMEM <= a < IMEM + 0xEC} | \
+            {a - IMEM for a, _ in obs.get("writes", []) if IMEM <= a < IMEM + 0xEC}
+        cm, cn = cands(m), cands(n)
+        want_m, want_n = cm[latch.first.value], cn[latch.second.value]
+        wrong_n = cn[latch.first.value]
+        ok = (not t) or (any(want_n <= x < want_n + 3 for x in t) and not any(wrong_n <= x < wrong_n + 3 for x in t))
+        fact(ok, "two_operand_second_mode", f"{opcode:02X}/{pre:02X}:python",
+             {"touched": sorted(t), "second_operand_should_be_at": want_n, "first_mode_would_be": wrong_n,
+              "in_SINGLE_ADDRESSABLE_OPCODES": opcode in O.SINGLE_ADDRESSABLE_OPCODES})
+        fact(opcode not in O.SINGLE_ADDRESSABLE_OPCODES, "two_operand_opcode_in_single_addressable_table", f"{opcode:02X}", {})
+        pw = sorted((a, v) for a, v in obs.get("writes", []) if IMEM <= a < IMEM + 0x100)
+        rw = sorted((a, v) for a, v in r["steps"][0].get("writes", []) if IMEM <= a < IMEM + 0x100)
+        if pw and rw:
+            fact(pw == rw, "two_operand_modes_python_vs_rust", f"{opcode:02X}/{pre:02X}", {"python": pw[:4], "rust": rw[:4]})
+
     # (c) vectors: IR and RESET with different 3-byte values at 0xFFFFA and 0xFFFFD
     for name, code in (("IR", 0xFE), ("RESET", 0xFF)):
         mem = {0xFFFFA: 0x11, 0xFFFFB: 0x22, 0xFFFFC: 0x03, 0xFFFFD: 0x44, 0xFFFFE: 0x55, 0xFFFFF: 0x06}
@@ -323,6 +368,26 @@ def behavioural(res, fact):
         want = "0xFFFFA" if name == "IR" else "0xFFFFD"
         fact(pyv == want, "vector_address", f"{name}:python", {"fetches_from": pyv, "tables_say": want})
         fact(rsv == want, "vector_address", f"{name}:rust", {"fetches_from": rsv, "tables_say": want})
+
+    # (d) the machine models keep their OWN copy of the interrupt vector address for hardware delivery (timer/key/ON):
+    #     run a ROM whose vector at 0xFFFFA points to H1 while other plausible places hold different pointers, deliver a
+    #     timer interrupt through step() on both real machines and see where control goes.
+    from .. import machine
+    from ..machine import le3, ROM_BASE, VECTOR, ENTRY
+    from .c12 import key_codes
+    h1, h2 = ROM_BASE + 0x100, ROM_BASE + 0x180
+    reset = bytes([0x0F]) + le3(0xB9000) + bytes([0x32, 0xCC, 0xFB, 0x81, 0x00, 0x00, 0x00, 0x13, 0x05])
+    scen = {"code": [[ROM_BASE, reset.hex()], [h1, "0001"], [h2, "0001"], [VECTOR, le3(h1).hex()], [ENTRY, le3(h2).hex()]],
+            "regs": {"PC": ROM_BASE, "S": 0xB9000}, "imem": {0xFB: 0, 0xFC: 0},
+            "timer": {"enabled": True, "mti": 3, "sti": 0, "kb_irq": False}}
+    script = [("obs",)] + [("step",)] * 12
+    for model, obs in (("python", machine.PyMachine(scen).run(script)),
+                       ("rust", machine.run_rust([(scen, script)], key_codes())[0][0])):
+        res.monitor("vector_behaviour")
+        entered = [o["pc"] for a, o in zip(obs, obs[1:]) if o["S"] == ((a["S"] - 5) & 0xFFFFF)]
+        got = entered[0] if entered else None
+        where = "0xFFFFA" if got in (h1, h1 + 1) else ("0xFFFFD" if got in (h2, h2 + 1) else (hex(got) if got is not None else "no delivery"))
+        fact(where == "0xFFFFA", "vector_address", f"hardware_delivery:{model}", {"control_went_to": where, "tables_say": "0xFFFFA"})
 
 
 def replay(case):
